@@ -64,6 +64,9 @@ CLAIMED = {
  "C13": ("smx", SMX,
          "(generator) every program over 8 operations up to length 4-6 runs on the real async_generator for 5 adaptors under a controlled executor: poll-when-woken plus bounded deviations (spurious polls, other completion orders, early drop) and extra polls after the end; the received sequence must equal the reference (each item once, in order, one completion, then end, is_terminated consistent), the next program step may start only after the consumer took the yielded items, every completion must wake the task, no deadlock; (state machine) update + install with 0-3 progress values, all operations blocking, delayed and spurious consumer polls: progress in order before the outcome, request / installer / reboot only after the consumer took the corresponding state event, acknowledgement only after receipt, no lost wake-up, no deadlock.",
          "Consumer modelled as a `while let Some(..) = next().await` loop; deviation bounds as in the evidence.", "3/C13"),
+ "C17": ("smx", SMX,
+         "Requests built by the client library (1-3 apps in every order, 5 service URLs with paths and queries, 4 key configurations x 0-2 server historical keys, parameters, cohorts, update-check and 4 event request kinds, 5 configured response kinds per app; deviation-bounded product) are handed to mock_omaha_server::handle_request in-process: no panic, the client parser accepts the body (except the invalid kind), apps in request order with the configured decision, the ETag verifies with the client verifier for its own exchange and not for the sibling exchange; the real state machine with the real CUP handler runs two checks against the in-process mock for every response kind x forced ETag x CUP x URL, with a reconfiguration through /set_responses_by_appid between the checks.",
+         "In-process transport (origin-form URI rewrite); requests are those the mock is configured to expect (its own assertions on version / updatedisabled / cohort are respected).", "3/C17"),
 }
 
 PENDING_REASON = "check under construction in this round (design in DESIGN.md section 3); not claimed until its machinery is committed"
